@@ -45,6 +45,19 @@ pub enum Mode {
     PresignedUrl,
 }
 
+/// Pushes the value of a header field: a field sent several times stands for
+/// the comma-separated list of its values, in the order received (RFC 9110, section 5.3),
+/// so a repeated `Content-MD5`, `Content-Type` or `Date` is signed and cannot be taken for an absent one.
+fn push_field_value<'a>(ans: &mut String, mut values: impl Iterator<Item = &'a str>) {
+    if let Some(first) = values.next() {
+        ans.push_str(first);
+        for value in values {
+            ans.push(',');
+            ans.push_str(value);
+        }
+    }
+}
+
 pub fn create_string_to_sign(
     mode: Mode,
     method: &Method,
@@ -63,17 +76,13 @@ pub fn create_string_to_sign(
 
     {
         // {Content-MD5}\n
-        if let Some(v) = headers.get_unique("content-md5") {
-            ans.push_str(v);
-        }
+        push_field_value(&mut ans, headers.get_all("content-md5"));
         ans.push('\n');
     }
 
     {
         // {Content-Type}\n
-        if let Some(v) = headers.get_unique("content-type") {
-            ans.push_str(v);
-        }
+        push_field_value(&mut ans, headers.get_all("content-type"));
         ans.push('\n');
     }
 
@@ -82,11 +91,9 @@ pub fn create_string_to_sign(
         Mode::HeaderAuth => {
             //  "if you include the x-amz-date header, use the empty string
             //      for the Date when constructing the StringToSign."
-            let mut date = headers.get_unique("date").unwrap_or_default();
-            if headers.get_unique("x-amz-date").is_some() {
-                date = "";
+            if headers.get_unique("x-amz-date").is_none() {
+                push_field_value(&mut ans, headers.get_all("date"));
             }
-            ans.push_str(date);
             ans.push('\n');
         }
         // {Expires}\n
